@@ -17,4 +17,5 @@ for m in ['quansino.mc', 'quansino.moves', 'quansino.operations', 'quansino.util
 print('pyvc self-test: package interpreted,', len(I.loader.modules), 'modules')
 PY
 python3-vt tools/conformance_numpy.py
+python3-vt tools/conformance_arrays.py | head -3
 echo setup-ok
